@@ -290,7 +290,9 @@ func (p *H264Packet) parseBody(payload []byte) ([]byte, error) { //nolint:cyclop
 			return nil, errShortPacket
 		}
 
-		if p.fuaBuffer == nil {
+		if p.fuaBuffer == nil || payload[1]&fuStartBitmask != 0 {
+			// a start fragment begins a new unit: fragments left over from a unit whose
+			// end was lost must not be prepended to it
 			p.fuaBuffer = []byte{}
 		}
 
